@@ -291,6 +291,22 @@ impl<'a> Parser<'a> {
         }
     }
 
+    /// Consumes a keyword: like `consume_token`, but the keyword must not be the prefix of a
+    /// longer identifier (`something` is a variable, not `some thing`).
+    fn consume_keyword(&mut self, keyword: &'static str) -> Result<(), ParseError> {
+        let rest = &self.source[self.offset..];
+        if rest.starts_with(keyword)
+            && !rest[keyword.len()..]
+                .chars()
+                .next()
+                .map_or(false, is_ident)
+        {
+            self.consume_n(keyword.len())
+        } else {
+            Err(ParseError::ExpectedToken(keyword, self.location))
+        }
+    }
+
     fn parse_into_file(&mut self, file: &mut ast::File) -> Result<(), ParseError> {
         self.consume_whitespace();
         while self.try_peek().is_some() {
@@ -716,11 +732,11 @@ impl<'a> Parser<'a> {
 
     fn parse_condition(&mut self) -> Result<ast::Condition, ParseError> {
         let location = self.location;
-        let condition = if let Ok(_) = self.consume_token("some") {
+        let condition = if let Ok(_) = self.consume_keyword("some") {
             self.consume_whitespace();
             let value = self.parse_expression()?;
             ast::Condition::Some { value, location }
-        } else if let Ok(_) = self.consume_token("none") {
+        } else if let Ok(_) = self.consume_keyword("none") {
             self.consume_whitespace();
             let value = self.parse_expression()?;
             ast::Condition::None { value, location }
